@@ -52,7 +52,7 @@ theorem optNonTag_eq {δ L : Nat} {x y : Option NonTagOutline} (h : OptRel (NonT
   · simp [(hr.val rfl).1]
 
 section
-variable {env : Env κ} {inpS inpW : Bytes} {δ : Nat} {K : Nat → κ → κ → Prop}
+variable {env : Env κ} {inpS inpW : Bytes} {δ : Nat} {K : Nat → κ → κ → Prop} {Loc : κ → Nat → Prop}
 
 /-- the standing assumptions of an action step in lexer mode (no text debt) -/
 structure LexPre (δ : Nat) (K : Nat → κ → κ → Prop) (ab : Ab) (cs cw : Common) (ls lw : LexRegs) (xs xw : Ctx κ) : Prop where
@@ -532,10 +532,11 @@ theorem lexAct_attr (F : Frame inpS inpW δ) {ab ab' : Ab} {cs cw : Common} {ls 
       exact g'.1
 
 /-- **All lexer actions.** -/
-theorem lexAct_sim (F : Frame inpS inpW δ) (hops : OpsSim env.ops inpS inpW δ K) (a : ActName) {d : Nat}
+theorem lexAct_sim (F : Frame inpS inpW δ) (hops : OpsSim env.ops inpS inpW δ K Loc) (a : ActName) {d : Nat}
     {ab ab' : Ab} (habs : absAct a ab = some ab') {cs cw : Common} {ls lw : LexRegs} {xs xw : Ctx κ}
     (hc : CRel δ 0 cs cw) (hl : LexRel δ d ab cs.nextPos ls lw) (hsim : xw.sim = xs.sim)
     (hpc : xs.prevConsumed = xw.prevConsumed + δ) (hK : K d xs.sink xw.sink)
+    (hloc : 0 < d → Loc xs.sink ls.lexemeStart)
     (hd : d = 0 ∨ a = .emitText ∨ a = .emitTextAndEof)
     (hin : readsInp a = true → (cs.nextPos ≤ inpS.length ∨ Closed inpS inpW δ)) :
     ActSim δ K ab' (qRequired a) (lexAct env a inpS cs ls xs) (lexAct env a inpW cw lw xw) := by
@@ -544,13 +545,13 @@ theorem lexAct_sim (F : Frame inpS inpW δ) (hops : OpsSim env.ops inpS inpW δ 
     · split at habs
       · rename_i hP
         simp only [Option.some.injEq] at habs; subst habs
-        exact lexEmitText_sim hops hc hl hP hsim hpc hK ab.stale_noLex
+        exact lexEmitText_sim hops hc hl hP hsim hpc hK hloc ab.stale_noLex
       · cases habs
     · split at habs
       · rename_i hP
         simp only [Option.some.injEq] at habs; subst habs
         simp only [lexAct]
-        exact andThen_sim (lexEmitText_sim hops hc hl hP hsim hpc hK ab.stale_noLex)
+        exact andThen_sim (lexEmitText_sim hops hc hl hP hsim hpc hK hloc ab.stale_noLex)
           (fun ms mw hm hk => lexEmitEof_sim hops hm hk hP ab.stale_noLex)
       · cases habs
   · have hd0 : d = 0 := by
